@@ -46,7 +46,7 @@ func (b *termBuilder) of(v ssa.Value, depth int) *Term {
 		return t
 	}
 	if b.stack[v] || depth > maxTermDepth {
-		return &Term{Op: "other", Sym: "…" + v.Name(), V: v}
+		return &Term{Op: "other", Sym: "…", V: v}
 	}
 	b.stack[v] = true
 	t := b.build(v, depth)
@@ -255,11 +255,49 @@ func arrayElems(al *ssa.Alloc) ([]ssa.Value, bool) {
 	return out, true
 }
 
+// uniqueStore: the cell is written exactly once in its function (typically a
+// parameter spilled because a closure captures it) and no closure writes it.
+func uniqueStore(al *ssa.Alloc) ssa.Value {
+	var val ssa.Value
+	n := 0
+	for _, r := range *al.Referrers() {
+		switch x := r.(type) {
+		case *ssa.Store:
+			if x.Addr == al {
+				n++
+				val = x.Val
+			}
+		case *ssa.MakeClosure:
+			fn, _ := x.Fn.(*ssa.Function)
+			for i, b := range x.Bindings {
+				if b != al || fn == nil || i >= len(fn.FreeVars) {
+					continue
+				}
+				for _, fr := range *fn.FreeVars[i].Referrers() {
+					if st, ok := fr.(*ssa.Store); ok && st.Addr == fn.FreeVars[i] {
+						return nil
+					}
+					if _, ok := fr.(*ssa.MakeClosure); ok {
+						return nil // nested capture: give up
+					}
+				}
+			}
+		}
+	}
+	if n == 1 {
+		return val
+	}
+	return nil
+}
+
 // reachingStore finds the value most recently stored to a local cell before
 // the load, looking only where the answer is unambiguous: earlier in the same
 // block, or at the end of a chain of unique predecessors. Captured/spilled
 // locals (err variables shared with closures or defers) appear this way.
 func reachingStore(al *ssa.Alloc, load ssa.Instruction) ssa.Value {
+	if v := uniqueStore(al); v != nil {
+		return v
+	}
 	blk := load.Block()
 	idx := -1
 	for i, in := range blk.Instrs {
